@@ -1235,3 +1235,26 @@ def receiver_reports_close(eng: Engine, ctx: Ctx, rid: str):
               found=(f"{len(rets)} such return(s)" + (f", {len(stores_before)} store(s) before it" if stores_before else "")) if rets else
               "no `return False` guarded by the emptiness of recv()'s own result: " + "; ".join(guard_text(e.guards)[:80] for e in sv.effects if e.kind == "return" and e.term == ("const", False) and e.handler is None),
               **eng.loc(rv, (rets or recvs)[0].node))
+
+
+# ============================================================================ C13-D1 restricted to the decoder (shared with C03, C09, C16)
+def decoder_reads_no_mutable_state(eng: Engine, ctx: Ctx, rid: str):
+    ctx.rule(rid, "decoded values and labels depend only on the message at hand: no function of the message class writes to module-level or class-level storage "
+                  "(a cache or memo written during one parse could feed values into another)")
+    from ..effects import EffectAnalysis
+
+    res = eng.__dict__.get("_effect_result")
+    if res is None:
+        res = EffectAnalysis(eng.repo, eng.ce, eng.res).run()
+        eng.__dict__["_effect_result"] = res
+    mod, cls = eng.message_cls.split(".")
+    prefix = f"{mod}.{cls}."
+    n = 0
+    for w in list(res.writers) + list(res.class_attr_mutations) + list(res.globals_) + list(res.memo) + list(res.default_mutations):
+        if w.func.startswith(prefix) or w.func.startswith(f"{mod}.") and "." not in w.func[len(mod) + 1:]:
+            n += 1
+            f = eng.repo.funcs[w.func]
+            ctx.bad(rid, w.func, w.what[:120], expected="no state shared between parses in the decoder", found=f"{w.kind} on {w.origin}",
+                    detail="a later (or concurrent) parse can observe what this parse stored", **eng.loc(f, w.node))
+    if not n:
+        ctx.ok(rid, eng.message_cls, "writers to shared storage in the decoder", found="none", file=eng.repo.relpath(mod), line=0)
